@@ -244,18 +244,35 @@ where
     // serde_json text (finite contents only: JSON has no inf/NaN)
     let json_ok: u64 = if finite {
         let text = serde_json::to_string(v).expect("to_string");
-        match serde_json::from_str::<V>(&text) {
-            Ok(back) => (bits(&back) == orig) as u64,
-            Err(_) => 0,
-        }
+        // three ways in: borrowed text, a reader (no borrowing possible), and the Value tree
+        let a = match serde_json::from_str::<V>(&text) {
+            Ok(back) => bits(&back) == orig,
+            Err(_) => false,
+        };
+        let b = match serde_json::from_reader::<_, V>(text.as_bytes()) {
+            Ok(back) => bits(&back) == orig,
+            Err(_) => false,
+        };
+        let c = match serde_json::to_value(v).ok().and_then(|t| serde_json::from_value::<V>(t).ok()) {
+            Some(back) => bits(&back) == orig,
+            None => false,
+        };
+        (a && b && c) as u64
     } else {
         2
     };
     let cbor_ok: u64 = match serde_cbor::to_vec(v) {
-        Ok(buf) => match serde_cbor::from_slice::<V>(&buf) {
-            Ok(back) => (bits(&back) == orig) as u64,
-            Err(_) => 0,
-        },
+        Ok(buf) => {
+            let a = match serde_cbor::from_slice::<V>(&buf) {
+                Ok(back) => bits(&back) == orig,
+                Err(_) => false,
+            };
+            let b = match serde_cbor::from_reader::<V, _>(&buf[..]) {
+                Ok(back) => bits(&back) == orig,
+                Err(_) => false,
+            };
+            (a && b) as u64
+        }
         Err(_) => 0,
     };
     // the same bytes read back through readers that return short counts
